@@ -107,6 +107,8 @@ def gen(rng, tier, i):
         elif r < 0.30 and rng.random() < 0.35:
             # virtual objects: master::compile_object answers for a name without a file
             vn = '/v/x%d' % rng.randint(1, 3)
+            # (a virtual name may look like the name a later clone will be given)
+            if rng.random() < 0.25: vn = '/wobj#%d' % rng.randint(3, 12)
             how = rng.choice(('clone', 'clone', 'again', 'dead', 'int', 'err', 'tag:' + rng.choice(tags), 'master'))
             text = 'wvo %s %s;%s %s %s' % (vn, how, rng.choice(('wload', 'wclone')), vn, newtag())
             tags.append('t%d' % nt[0])
@@ -216,7 +218,7 @@ def check(plan, res):
             tag, how, file, ok, gtag, err = w[1], w[2], w[3], w[4][3:], w[5][4:], w[6][4:]
             created = ok != '0' and gtag == tag
             if world is not None:
-                if file.startswith('/v/'): must_fail = None        # virtual names: whatever the master's compile_object decides
+                if file.startswith('/v/') or re.fullmatch(r'/wobj#\d+', file): must_fail = None        # virtual names (some look like clone names): whatever the master's compile_object decides
                 else: must_fail = ('#' in file) or file == '/w/missing' or (deny and file == '/w/b2')
                 if must_fail is True and ok != '0':
                     bad('creation', '%s %s must fail but yielded %s' % (how, file, ok), 'creation/should-fail')
